@@ -488,9 +488,12 @@ class C15Same(Suite):
         t2 = rng.choice(same_s)
         const = rng.choice([t1[2]] + [t[2] for t in ts])
         op = rng.choice(["=", "=", "!=", "<", ">"])
-        fv = rng.choice([2, 2, 2, 1, 1, 3])
+        fv = rng.choice([2, 2, 1, 1, 1, 3])
         if fv == 1:
+            # the join variable, compared with a subject of the data by = / != (< > on IRIs raise for every spelling)
             const = rng.choice([t1[0]] + [t[0] for t in ts])
+            if op in ("<", ">"):
+                op = "="
         if rng.random() < 0.6:
             inner = [["bgp", [[-1, t2[1], -3]]], ["filter", ["cmp", op, ["var", fv], ["con", const]]]]
         else:
